@@ -75,6 +75,7 @@ def register(R):
             tags="C09",
         )
     register_sync(R)
+    register_sync_init(R)
 
 
 def register_sync(R):
@@ -120,4 +121,38 @@ def register_sync(R):
         modifies=["ghost.unwrap_calls", "ghost.socket_closed", "ghost.now", "ghost.waited", "ghost.select_calls", "ghost.unbounded_waits", "ghost.last_wait",
                   "ghost.cb_returned", "ghost.cb_failed"],
         tags="C09",
+    )
+
+
+def register_sync_init(R):
+    """SSLStreamTransport.__init__ establishes what the receive contracts rely on (the class invariant used to be assumed):
+    the SSL socket is created with suppress_ragged_eofs == not standard_compatible; a failed handshake closes the socket."""
+    R.external("types.MappingProxyType", "stubs.transports.mapping_proxy")
+    R.ghost(ssl_wrapped="bool")
+    R.module("verif-stubs/transports.py")
+    R.shape("SSLContextSyncModel", cls="SSLContextSync", fields={})
+    R.shape("PlainSocketModel", cls="Socket", fields={"type": "int"})
+    R.module("easynetwork/lowlevel/_utils.py")
+    R.contract("check_socket_no_ssl", params={"socket": "obj"}, trusted=True, ensures=["True"], raises={"TypeError": ["True"]})
+    R.module("easynetwork/lowlevel/socket.py")
+    R.contract("_get_socket_extra", params={"sock": "obj", "wrap_in_proxy": "bool"}, result="obj", trusted=True, ensures=["True"])
+    R.module("easynetwork/lowlevel/api_sync/transports/base_selector.py")
+    R.contract("SelectorBaseTransport.__init__", params={"retry_interval": "xreal", "selector_factory": "opt[obj]"}, trusted=True,
+               self_shape="SSLStreamTransportNew",
+               ensures=["isinf(self._retry_interval) or fin(self._retry_interval) > 0"], raises={"ValueError": ["True"]},
+               modifies=["self._retry_interval", "self._selector_factory"])
+    R.module("easynetwork/lowlevel/api_sync/transports/socket.py")
+    R.shape("SSLStreamTransportNew", cls="SSLStreamTransport",
+            fields={"_retry_interval": "xreal", "_selector_factory": "fn:stubs.transports:selector_factory"})
+    R.contract(
+        "SSLStreamTransport.__init__", self_shape="SSLStreamTransportNew",
+        params={"sock": "PlainSocketModel", "ssl_context": "SSLContextSyncModel", "retry_interval": "xreal", "handshake_timeout": "opt[xreal]", "shutdown_timeout": "opt[xreal]",
+                "server_side": "opt[bool]", "server_hostname": "opt[obj]", "standard_compatible": "bool", "session": "opt[obj]", "selector_factory": "opt[obj]"},
+        requires=[("ghost: nothing wrapped or closed yet", "not ghost.socket_closed and not ghost.ssl_wrapped")],
+        ensures=[("ragged-eofs-are-suppressed-exactly-when-not-standard-compatible", "self.__socket.suppress_ragged_eofs == (not standard_compatible)", "C09"),
+                 ("mode-recorded", "self.__standard_compatible == standard_compatible", "C09"),
+                 ("socket-left-open", "not ghost.socket_closed", "C14")],
+        raises={"BaseException": [("a-failed-timed-out-or-interrupted-handshake-closes-the-socket", "implies(ghost.ssl_wrapped, ghost.socket_closed)", "C14")]},
+        modifies=["self", "ghost.socket_closed", "ghost.ssl_wrapped", "ghost.now", "ghost.waited", "ghost.select_calls", "ghost.unbounded_waits", "ghost.last_wait", "ghost.cb_returned", "ghost.cb_failed", "ghost.tls_cause"],
+        tags="C09 C14",
     )
